@@ -78,9 +78,16 @@ func (f *Frame) external(fn *ssa.Function, args []Val, c *ssa.CallCommon, pos to
 		s, p := a(0), a(1)
 		return Val{t: vc.sc.define("trimsuffix", "String", ite(app("str.suffixof", p, s), app("str.substr", s, "0", app("-", app("str.len", s), app("str.len", p))), s)), typ: strT}, false
 	case "strings.Count":
-		r := vc.sc.freshConst("strings.Count", "Int")
-		f.assume(app(">=", r, "0"))
-		usedAxioms["A2:strings.Count>=0"] = true
+		vc.sc.decl("strings.Count", "(declare-fun strings.Count (String String) Int)")
+		r := app("strings.Count", a(0), a(1))
+		if !strings.Contains(r, "?") {
+			key := "inst:" + r
+			if !vc.sc.declSet[key] {
+				vc.sc.declSet[key] = true
+				vc.sc.assume(app(">=", r, "0"))
+			}
+		}
+		usedAxioms["A2:strings.Count (uninterpreted function, >= 0)"] = true
 		return Val{t: r, typ: intT}, false
 	case "strings.Index":
 		return Val{t: app("str.indexof", a(0), a(1), "0"), typ: intT}, false
